@@ -14,7 +14,7 @@ from harness.checks import engine_common as ec
 
 def jobs_for(kind, n, seed):
     rnd = random.Random(seed)
-    gk = dict(p_cmd=0.1)
+    gk = dict(p_cmd=0.2, cmds=['fail', 'succeed', 'noop', 'pause', 'pause'])
     if kind == 'plain':
         return ec.random_jobs(rnd, n, schedulers=('default',), label='plain') + ec.catalogue_jobs(schedulers=('default',), seeds=(1,))
     base = ec.random_jobs(rnd, n, schedulers=('default',), label=kind, gen_kw=gk)
